@@ -31,3 +31,12 @@ package stateroot
 //@ modifies removed, stored
 //@ ensures[decision] result0 == !(v[len(v)-5] != 1 && mpt.le32s(v, len(v)-4) <= index)
 //@ ensures[continue] result1
+
+// (C06: a rejected block changes nothing) the state root of a block being stored is written to the
+// block's own cache layer - the one the trie nodes went to - never to the chain store directly.
+//@ prop C06
+//@ func (*Module).AddMPTBatch
+//@ may-panic
+//@ opt frame off
+//@ requires s != nil && s.mpt != nil && cache != nil
+//@ call addLocalStateRoot requires[cache] arg1 == cache && arg2.Index == index
